@@ -65,6 +65,11 @@ def check(model: Model, rep: Report, tier: str):
         r13(model, rep)
     with rep.isolated():
         r15(model, rep)
+    from .c02 import l7 as _l7
+    with rep.isolated():
+        share_rule(rep, model, _l7, "C01.R16", "a block handed to add() -- as a declarative circuit or as a bare structure -- is nested as a COPY: add() tests the sub-circuit "
+                   "interfaces before the plain-operation case (= C02.L7); nested by reference, the same block added twice is one object with one relation, so the second "
+                   "occurrence sits on top of the first, and adding it to another circuit moves it in the first")
     with rep.isolated():
         from .c03 import h7 as _h7
         from ..effects import Effects as _Eff
